@@ -151,6 +151,12 @@ class Runner(object):
                                               for (p, k) in r.items())]
                 except DDSException:
                     out["ans"] = ["missing"]
+                except Exception as e:
+                    # dbutils reports a missing file with a plain (JVM bridge) exception
+                    if self.kind == "dbfs" and "FileNotFound" in str(e):
+                        out["ans"] = ["missing"]
+                    else:
+                        raise
             elif op == "reopen":
                 self.store = None
                 gc.collect()
